@@ -12,7 +12,10 @@ L2Targets == {"none", "G", "T", "F", "DH"}
 Flavours == {"abs", "rel"}
 
 ArgLists == {<< <<"t">> >>, << <<"t", "d">> >>, << <<"t">>, <<"t", "d">> >>, << <<"t">>, <<"t">> >>,
-             << <<"t", "f">>, <<"t", "d">> >>, << <<"t", "l1">> >>, << <<"t", "e">>, <<"t", "f">> >>}
+             << <<"t", "f">>, <<"t", "d">> >>, << <<"t", "l1">> >>, << <<"t", "e">>, <<"t", "f">> >>,
+             << <<"t", "d">>, <<"t">> >>,
+             \* a directory and a single file outside it, in both orders (each path is visited exactly once)
+             << <<"t", "d">>, <<"t", "g">> >>, << <<"t", "g">>, <<"t", "d">> >>}
 StripLists == {{}, {<<"t">>}, {<<"t">>, <<"t", "d">>}, {<<"t", "d">>}, {<<"t", "l1">>, <<"t", "d">>}}
 
 VARIABLES flav,     \* [l1, l2] link flavours (concretisation only)
@@ -21,11 +24,12 @@ mc18vars == <<rvars, flav, cmd>>
 
 FsSet ==
   [f : BOOLEAN, g : BOOLEAN, d : BOOLEAN, df : BOOLEAN, dh : BOOLEAN, e : BOOLEAN,
-   l1 : L1Targets, l2 : L2Targets]
+   l1 : L1Targets, l2 : L2Targets, l2g : BOOLEAN]
 
 \* no dangling links (outside the quantifier of C18), canonical form of absent sub-trees
 WellFormed(x) ==
   /\ (~x.d => ~x.df /\ ~x.dh /\ x.l2 = "none")
+  /\ (x.l2g => x.l2 # "none" /\ x.g /\ x.l1 # "L2")        \* the like-named link only where it can collide
   /\ (x.l1 \notin {"none", "L2", "T"} => Present(x, x.l1))
   /\ (x.l1 = "L2" => x.d /\ x.l2 # "none")
   /\ (x.l2 \notin {"none", "T"} => Present(x, x.l2))
